@@ -2,6 +2,7 @@
 from .. import common as C
 from .. import engine as E
 from .. import catalogue as K
+from .. import stages as S2
 
 THEOREMS = ["c03_causal", "c03_failfast_first", "c03_stop_ends_the_work"]
 
@@ -22,6 +23,16 @@ def run(ctx, H):
                 cur[i] = {"m": [["zz", None]]}
                 cur[i + 1] = {"m": [["zz", None]]}
                 base.append(E.Case(e, K.set_at(p, q, cur), "ov", [], True, "cont", 2))
+    # conversions reached with a failing value and a faulty sibling before / after them
+    staged = set()
+    for e in H.entries:
+        ps = S2.staged_payloads(e, ctx.rng)
+        if ctx.tier == "quick" and len(ps) > 3:
+            ps = ctx.rng.sample(ps, 3)
+        for p in ps:
+            c = E.Case(e, p, "ov", [], True, "cont", -1)
+            staged.add(id(c))
+            base.append(c)
     # keep the payloads that make the keep-going run call the error type at least once
     kobs = E.run_cases(H, base)
     pairs = []
@@ -34,6 +45,14 @@ def run(ctx, H):
             ks = sorted(set([0, 1, n - 1, n] + ctx.rng.sample(ks, 3)))
         for k in ks:
             pairs.append((c, E.Case(c.entry, c.payload, c.src, [True] * k, False, "switch", c.nfaults)))
+        # a single Break followed by Continue answers (a stop must end the work of its container even if later answers are Continue)
+        js = list(range(n))
+        if id(c) not in staged and len(js) > 2:
+            js = ctx.rng.sample(js, 2)
+        for j in js:
+            pairs.append((c, E.Case(c.entry, c.payload, c.src, [True] * j + [False], True, "one-break", c.nfaults)))
+            if id(c) in staged:
+                pairs.append((c, E.Case(c.entry, c.payload, c.src, [False] * j + [True], False, "one-continue", c.nfaults)))
         # an arbitrary script as well
         sc = [ctx.rng.random() < 0.5 for _ in range(ctx.rng.randint(1, max(1, n)))]
         pairs.append((c, E.Case(c.entry, c.payload, c.src, sc, ctx.rng.random() < 0.5, "random", c.nfaults)))
@@ -48,7 +67,7 @@ def run(ctx, H):
     ctx.coverage.update({
         "evaluations": len(pairs), "distinct_nontrivial": E.nontrivial(flat_cases, sobs),
         "rule": "for each (type, payload) whose keep-going run reports something: one run per switch position k in [0, n] (all of them when n <= 5, "
-                "else 0,1,n-1,n and 3 random), plus a random Continue/Break script; each compared with the keep-going run; non-trivial = distinct "
+                "else 0,1,n-1,n and 3 random), plus one-Break-then-Continue scripts (all positions for staged conversion payloads) and a random Continue/Break script; each compared with the keep-going run; non-trivial = distinct "
                 "(type,payload,script) whose run calls the error type or returns Ok",
         "keep_going_runs": len(base),
         "input_distribution": E.distribution(flat_cases, sobs),
